@@ -129,6 +129,20 @@ int main() {
                     H.push_back(e.release());
                 } else H.push_back(nullptr);
             }
+            else if (c == "descend") {     // C++ only: a handle walks down to one of its node's children, t = t->child
+                if (G(t[1])) {
+                    size_t i = std::stoul(t[1]); int k = std::stoi(t[2]);
+                    Tree a(H[i]);                       // +1
+                    libfive_tree_delete(H[i]); H[i] = nullptr;   // `a` is now what the handle was (possibly the last owner)
+                    const Tree* src = nullptr;
+                    if (auto u = std::get_if<TreeUnaryOp>(a.get())) src = &u->lhs;
+                    else if (auto b = std::get_if<TreeBinaryOp>(a.get())) src = (k % 2 == 0) ? &b->lhs : &b->rhs;
+                    else if (auto r = std::get_if<TreeRemap>(a.get())) { const Tree* cs[4] = {&r->x, &r->y, &r->z, &r->t}; src = cs[k % 4]; }
+                    else if (auto ap = std::get_if<TreeApply>(a.get())) { const Tree* cs[3] = {&ap->target, &ap->value, &ap->t}; src = cs[k % 3]; }
+                    if (src) a = *src;                  // copy-assign from a reference into the expression `a` owns
+                    H.push_back(a.release());
+                } else H.push_back(nullptr);
+            }
             else if (c == "print") { if (G(t[1])) { char* s = libfive_tree_print(G(t[1])); out(std::string("P len=") + std::to_string(strlen(s))); free(s); } }
             else if (c == "eval") { if (G(t[1])) { float v = libfive_tree_eval_f(G(t[1]), {0.5f, -0.25f, 1.0f}); (void)v; } }
             else if (c == "saveload") {
